@@ -157,7 +157,8 @@ pub proof fn lemma_list_of<E, Ix: IndexType>(es: Seq<Edge<E, Ix>>, head: EdgeInd
     lemma_slist_unique(es, head, k, list_of(es, head, k), s);
 }
 
-impl<N, E, Ty: EdgeType, Ix: IndexType> Graph<N, E, Ty, Ix> {
+// (no `Ty: EdgeType` bound: the representation invariant does not depend on the edge type, and `Clone` is implemented without that bound)
+impl<N, E, Ty, Ix: IndexType> Graph<N, E, Ty, Ix> {
     pub open spec fn n(&self) -> int { self.nodes@.len() as int }
     pub open spec fn m(&self) -> int { self.edges@.len() as int }
     pub open spec fn outs(&self) -> Seq<Seq<int>> {
@@ -191,5 +192,45 @@ impl<N, E, Ty: EdgeType, Ix: IndexType> Graph<N, E, Ty, Ix> {
         }
         assert(out =~= self.outs());
         assert(inn =~= self.inns());
+    }
+}
+
+pub proof fn lemma_slist_same_links<E, Ix: IndexType>(es: Seq<Edge<E, Ix>>, es2: Seq<Edge<E, Ix>>, head: EdgeIndex<Ix>, k: int, s: Seq<int>)
+    requires slist(es, head, k, s), es2.len() == es.len(),
+        forall|e: int| 0 <= e < es.len() ==> (#[trigger] es2[e]).next == es[e].next,
+    ensures slist(es2, head, k, s)
+    decreases s.len()
+{
+    if s.len() > 0 { lemma_slist_same_links(es, es2, es[s[0]].next[k], k, s.drop_first()); }
+}
+
+impl<N, E, Ty, Ix: IndexType> Graph<N, E, Ty, Ix> {
+    /// writing only a weight keeps every list
+    pub proof fn lemma_weights_only(&self, o: &Self)
+        requires o.wf(), self.nodes@.len() == o.nodes@.len(), self.edges@.len() == o.edges@.len(),
+            forall|a: int| 0 <= a < o.nodes@.len() ==> (#[trigger] self.nodes@[a]).next == o.nodes@[a].next,
+            forall|e: int| 0 <= e < o.edges@.len() ==> (#[trigger] self.edges@[e]).next == o.edges@[e].next && self.edges@[e].node == o.edges@[e].node,
+        ensures self.wf(), self.outs() == o.outs(), self.inns() == o.inns()
+    {
+        let out = o.outs(); let inn = o.inns();
+        assert forall|k: int, ls: Seq<Seq<int>>| 0 <= k < 2 && #[trigger] lists_ok(o.nodes@, o.edges@, k, ls) implies lists_ok(self.nodes@, self.edges@, k, ls) by {
+            assert forall|a: int| 0 <= a < self.nodes@.len() implies slist(self.edges@, self.nodes@[a].next[k], k, #[trigger] ls[a]) && no_dup(ls[a]) by {
+                lemma_slist_same_links(o.edges@, self.edges@, o.nodes@[a].next[k], k, ls[a]);
+                assert(self.nodes@[a].next == o.nodes@[a].next);
+            }
+            assert forall|a: int, i: int| 0 <= a < self.nodes@.len() && 0 <= i < ls[a].len() implies self.edges@[#[trigger] ls[a][i]].node[k].0.ix() == a by {
+                lemma_slist_range(o.edges@, o.nodes@[a].next[k], k, ls[a]);
+            }
+            assert forall|e: int| 0 <= e < self.edges@.len() implies (#[trigger] ls[self.edges@[e].node[k].0.ix() as int]).contains(e) by {
+                assert(self.edges@[e].node == o.edges@[e].node);
+            }
+        }
+        assert(lists_ok(self.nodes@, self.edges@, 0, out));
+        assert(lists_ok(self.nodes@, self.edges@, 1, inn));
+        assert forall|e: int| 0 <= e < self.edges@.len() implies (#[trigger] self.edges@[e]).node[0].0.ix() < self.nodes@.len() && self.edges@[e].node[1].0.ix() < self.nodes@.len() by {
+            assert(self.edges@[e].node == o.edges@[e].node);
+        }
+        assert(self.wf_with(out, inn));
+        self.lemma_wf_unique(out, inn);
     }
 }
